@@ -1,15 +1,19 @@
 """C05 — ephemeral listeners never hold up or alter the synchronised stream."""
-from .. import protocol, sendfeed, pipeline
+from .. import protocol, sendfeed, pipeline, pairfeed
 from ..core import Violation
 import copy, logging
 
 ID = 'C05'
-MODULES = ['OFModel.Zmq.Receiver', 'OFModel.Zmq.Sender', 'OFModel.Gen.Facts']
+MODULES = ['OFModel.Zmq.Receiver', 'OFModel.Zmq.Sender', 'OFModel.Zmq.Pair', 'OFModel.Zmq.PairEph', 'OFModel.Gen.Facts']
+PROP_FILES = ['C05', 'C05Pair']
 RULE = ('sender: paired runs of the real ZMQSender on the same request feed with and without the requests of its ephemeral (? / ??) clients - the ids published and '
         'the set of calls that publish must agree up to stuttering (an ephemeral request may only make a publish happen one call earlier); `??` clients never '
         'produce a request.  receiver: adversarial feeds with ephemeral sources; every ephemeral contribution complete for its subscription, ids non-decreasing per source. '
-        'non-trivial = at least one publish / one set with an ephemeral contribution')
-ASSUMPTIONS = ['libzmq replaced by the in-process fake', 'paired-run comparison is an oracle on the implementation (exploration); the universally quantified statements are the Lean theorems']
+        'closed pair + listener (OFProps/C05Pair.lean): a REAL ZMQSender and a REAL synchronised ZMQReceiver wired through fakezmq, random schedules with restarts anywhere AND arbitrary requests of an '
+        'ephemeral client (any id, new, CLOSE, OOB, two incarnations) injected into the real PULL socket, compared event by event with OF.PairE; then the healing schedule of C05_pair_eph_recovers '
+        '(one send per request queued at the real socket, 5 polls, one time-out read off the real client table); oracle pair-eph-not-recovered / pair-order on the implementation. '
+        'non-trivial = at least one publish / one set with an ephemeral contribution / a pair schedule with ephemeral requests')
+ASSUMPTIONS = ['libzmq replaced by the in-process fake', 'closed pair + listener: immediate loss-free delivery, no HWM (a backlog at a stalled consumer is unbounded in the model); the constant 12-event recovery bound of C06 does NOT hold with a listener (kernel-evaluated counter-example in C05Pair.lean), the bound #queued requests + 9 events / 5 polls / one time-out does', 'paired-run comparison is an oracle on the implementation (exploration); the universally quantified statements are the Lean theorems']
 TRUSTED = ['transcriptions OFModel/Zmq/Receiver.lean and Sender.lean, compared call-by-call with the real classes']
 
 
@@ -112,8 +116,45 @@ def paired_oracle(trial, calls):
     return v
 
 
+def pair_eph_campaign(ctx, n):
+    """Closed pair + adversarial ephemeral client: real objects vs OF.PairE event by event, recovery and order oracles on the implementation."""
+    logging.disable(logging.CRITICAL)
+    res, rng = ctx.result, ctx.rng
+    trials = [dict(c['trial'], heal=None) for c in ctx.corpus if c.get('feed') == 'pair-eph']
+    if ctx.replay and ctx.replay.get('case', {}).get('feed') == 'pair-eph': trials = [dict(ctx.replay['case']['trial'])]; n = 0
+    for _ in range(n): trials.append({'prefix': pairfeed.gen_prefix(rng, eph=rng.choice([0.15, 0.3, 0.5])), 'heal': None})
+    obs = [pairfeed.run_impl(t, per_queue=True) for t in trials]
+    model = ctx.driver.batch([pairfeed.model_request(t) for t in trials]) if ctx.driver else None
+    stats = {'eph_requests': 0, 'heal_events_max': 0, 'recovered_within': {}}
+    for idx, (t, o) in enumerate(zip(trials, obs)):
+        neph = sum(1 for e in t['prefix'] if e['k'] == 'eph')
+        stats['eph_requests'] += neph; stats['heal_events_max'] = max(stats['heal_events_max'], len(t['heal']))
+        k = pairfeed.first_recovery_index(t, o); stats['recovered_within'][str(k)] = stats['recovered_within'].get(str(k), 0) + 1
+        res.note({'feed': 'pair-eph', 'prefix_events': len(t['prefix']), 'eph_requests': neph, 'heal_events': len(t['heal'])}, nontrivial=False)
+        if neph: res.nontrivial.add(f'pair-eph:{ctx.seed}:{idx}:{len(t["prefix"])}:{neph}')
+        for key, what in pairfeed.oracles(t, o)[:1]:
+            key = 'pair-eph-not-recovered' if key == 'pair-not-recovered' else key
+            res.violations.append(Violation(key, what, {'feed': 'pair-eph', 'trial': {k2: t[k2] for k2 in ('prefix', 'heal', 'prev_at_fault')}}))
+        if model is not None:
+            r = model[idx]
+            if 'err' in r:
+                res.disagreements.append({'point': 'pair.run', 'case': {'feed': 'pair-eph', 'trial': t}, 'impl': None, 'model': r}); continue
+            m = pairfeed.canon_model(r)
+            io = [(a, b) for a, b in o]
+            if m != io:
+                ci = next((i for i, (a, b) in enumerate(zip(io, m)) if a != b), min(len(io), len(m)))
+                evs = t['prefix'] + t['heal']
+                res.disagreements.append({'point': f'pair+listener event #{ci} ({evs[ci]["k"] if ci < len(evs) else "?"}): real classes vs OF.PairE.step',
+                                          'case': {'feed': 'pair-eph', 'trial': {k2: t[k2] for k2 in ('prefix', 'heal')}},
+                                          'impl': io[ci] if ci < len(io) else None, 'model': m[ci] if ci < len(m) else None})
+            else:
+                res.traces_validated += 1
+    res.extra['pair_eph'] = stats
+
+
 def run(ctx):
     logging.disable(logging.CRITICAL)
+    pair_eph_campaign(ctx, 4000 if ctx.thorough else (1000 if ctx.escalate else 400))
     n = 8000 if ctx.thorough else (3000 if ctx.escalate else 700)
     protocol.recv_campaign(ctx, 'C05', n, ['wf', 'wf', 'adv'])
     npairs = [0]
